@@ -83,6 +83,10 @@ def dumpTA (theta : Q) (a : TA) : List String :=
   ++ rList (fun kc => [toString kc.1, (a.sd.freq kc.1).render]) a.sd.counts
   ++ rList (fun kc => [toString kc.1, match a.sd.meanLen kc.1 with | some q => q.render | none => "N",
                        match a.sd.meanAge kc.1 with | some q => q.render | none => "N"]) a.sd.counts
+  ++ rList (fun kc => [toString kc.1, match a.sd.varLen kc.1 with | some q => q.render | none => "N",
+                       match a.sd.varAge kc.1 with | some q => q.render | none => "N",
+                       renderOLen (a.sd.rangeLen kc.1).1, renderOLen (a.sd.rangeLen kc.1).2,
+                       renderOLen (a.sd.rangeAge kc.1).1, renderOLen (a.sd.rangeAge kc.1).2]) a.sd.counts
   ++ rQs (scores a) ++ rQs (sums a)
   ++ [match mccIndex a with | some i => toString i | none => "-1"]
   ++ rList (fun s => [toString s]) (consensusOrder a.sd theta)
